@@ -948,6 +948,8 @@ vec<PTRef> LASolver::collectEqualitiesFor(vec<PTRef> const & vars, std::unordere
 
                 for (PTRef var1 : varsOfFirstVal) {
                     for (PTRef var2 : varsOfSecondVal) {
+                        // As above: no equality between an integer and a real variable
+                        if (logic.getSortRef(var1) != logic.getSortRef(var2)) { continue; }
                         PTRef eq = logic.mkEq(var1, var2);
                         if (knownEqualities.find(eq) == knownEqualities.end()) {
                             equalities.push(eq);
